@@ -1,6 +1,8 @@
 """C01 - storing a value quantizes it exactly: scale, round, then saturate or wrap; by every route and carrier."""
 from . import pipeline, routes
 
+from . import routes, fresh, flags, sizes, conv, dtype, carriers, funcs, ops, strings, pipeline, widths
+
 EXPLANATION = (
     "Decides the structural part of C01 from the source: R1 every public storing route reaches the value buffer only "
     "through set_val and forwards raw/index; R2 on every enumerated path of set_val the stored expression has the provenance "
@@ -22,7 +24,8 @@ def run(ck):
     routes.no_store_into_immutable(ck, "C01.R5")
     routes.carrier_types(ck, "C01.R6")
     routes.no_truncation_before_rounding(ck, "C01.R7")
-    from . import ops
     ops.conversions(ck, "C16.R2")        # "the value read back is exactly code*2^-n_frac"
     pipeline.rounding_table(ck, "C05.R1", "C05.R2", "C05.R3")
     pipeline.overflow_dispatch(ck, "C02.R6", "C03.R2", roles)
+    fresh.constructor_state(ck, "C20.R2")            # "under the configured modes": the modes are the object's own, applied to its final configuration
+    strings.decimal_arm(ck, "C01.R8")
